@@ -469,10 +469,14 @@ theorem multi_insert_stable (ops : List Op) (k v : Int) :
   * Which address an insert takes (LIFO free list, blocks of `ipbOf` items) is now proved for `Int` keys:
     PropsIds.lean `alloc_lifo`, `insert_takes_free_head`, `remove_then_insert_reuses`.  `G.insert_takes_free_head`,
     `G.remove_then_insert_reuses` are the statements for every key type.
-  * PropsRot.lean ties `updateHeightAndSlope/rotr/rotl/shiftr/shiftl/rebal` to the headers by translation.
-    STILL hand-translated (tied by the correspondence run incl. the white-box comparison only): the descent,
-    list threading and upward loop of the private `insert`, `remove` (unlinking, `rebalParent`,
-    `rebalParentUpwards`), the hinted `insert`, `find`, `count`, `clear`, copy / bulk insert loops.
+  * PropsRot.lean ties `updateHeightAndSlope/rotr/rotl/shiftr/shiftl/rebal` and the pieces of insert / remove / find /
+    count to the headers by translation; PropsComp.lean, PropsComp2.lean, PropsComp3.lean compose them: the translated
+    `insert(key, value)` (with the complete private insert), `insert(position, key, value)`, `find`, `count`, `clear()` and
+    `remove(it)` of an item with at most one child, run on a heap that represents a reachable state, yield a heap that
+    represents the model's step.
+    STILL hand-translated (tied by the correspondence run incl. the white-box comparison only): the two-children paths of
+    `remove(it)` (translated, but the equality with `removeRoot/popMin/popMax` is OPEN: see the end of PropsComp3.lean),
+    `remove(key)`, `removeFront/Back`, `contains`, the copy / bulk insert loops.
 -/
 
 /-! ### non-vacuity: concrete reachable states -/
